@@ -10,6 +10,9 @@ op =  {"k":"insertdata"|"deletedata"|"deletewhere", "q":[[s,p,o,g]…]}
        "where":[quad…],"filter":[var,"="|"!=",iri]|None}
     | {"k":"clear"|"drop","silent":bool,"t":"DEFAULT"|"NAMED"|"ALL"|g}
     | {"k":"add"|"move"|"copy","silent":bool,"src":0|g,"dst":0|g}
+    | {"k":"create","silent":bool,"g":g}
+    | {"k":"load","silent":bool,"doc":[[s,p,o]…]|None,"into":0|g}     doc = the N-Triples document at the source
+                                     (50…52 its blank-node labels), None = a source that does not exist
 
 Terms are small integers owned by the harness (kinds by range, see KIND below):
   1…9 IRIs, 20…24 literals (three falsy ones), 30…31 blank nodes of the store, 40…46 variables,
@@ -28,7 +31,9 @@ Property oracle (independent of Lean and of rdflib's evaluator): `spec_request` 
 Python transcription of SPARQL 1.1 Update §3/§4.3 over dict-of-sets, with its own BGP matcher —
 compared with the implementation's quads through `isoutil.iso`.
 """
+import hashlib
 import itertools
+import os
 import re
 import warnings
 
@@ -49,7 +54,7 @@ CASES = {"quick": 2600, "thorough": 60000, "search": 20000}
 RULE = ("random update requests (1-4 operations: INSERT/DELETE DATA, DELETE WHERE, DELETE/INSERT..WHERE with WITH / USING / "
         "USING NAMED / GRAPH templates and patterns — WHERE clauses: BGP blocks with a FILTER / UNION / sub-select, or (a fifth of "
         "the requests) full-algebra patterns with OPTIONAL, MINUS, UNION, FILTER, BIND, VALUES, GRAPH, sub-select, EXISTS — "
-        "CLEAR, DROP, ADD, MOVE, COPY) over datasets with 0-3 named graphs "
+        "CLEAR, DROP, ADD, MOVE, COPY, and (7 %) CREATE / LOAD of a local document or of a missing source) over datasets with 0-3 named graphs "
         "(one possibly registered-but-empty, one missing), through Graph / ConjunctiveGraph / Dataset with the union "
         "switch on and off; non-trivial = the request changed the dataset or a WHERE had at least one solution; "
         "distinct = distinct (api, union, init, request)")
@@ -60,7 +65,9 @@ ASSUMPTIONS = ["the Memory store behind Graph/ConjunctiveGraph/Dataset behaves a
                "being graphs of the dataset the specification oracle abstains (model and implementation are still compared)",
                "literals in full-algebra requests are the typed ones of LIT (= litTable of Model.lean)",
                "BNode() returns identifiers distinct from each other and from every identifier already present",
-               "SPARQL_LOAD_GRAPHS is False (no network); LOAD and CREATE are outside the property's operation list"]
+               "SPARQL_LOAD_GRAPHS is on only for requests with a LOAD (local N-Triples files, no USING in them), off otherwise "
+               "(no network); LOAD and CREATE are outside the property's operation list: LOAD is judged by §3.1.4, every CREATE "
+               "is taken as a failure (rdflib does not implement it) and only abort / SILENT / nothing-changed are judged"]
 TRUSTED = ["harness/c10.py generators, request printer, canonical numbering of minted blank nodes (component-wise exact)",
            "lean/RV/C10/Drive.lean line protocol", "harness/isoutil.py (exact isomorphism decision)",
            "harness/sparqlgen.py (pattern generator, §18 reference evaluator, Python mirror of RV/C04/Safe.lean)",
@@ -325,6 +332,34 @@ def table_lines(ids):
     return lines
 
 
+# ------------------------------------------------------------------ documents for LOAD (local files)
+
+LOAD_DIR = "/tmp/c10-load"
+
+
+def doc_text(doc):
+    return "".join(f"{n3(a)} {n3(b)} {n3(c)} .\n" for a, b, c in doc)
+
+
+def doc_url(doc):
+    """file: URL of the N-Triples document (named by its content, so that every process agrees); None -> a missing file"""
+    if doc is None:
+        return f"file://{LOAD_DIR}/missing.nt"
+    return f"file://{LOAD_DIR}/d{hashlib.sha1(doc_text(doc).encode()).hexdigest()[:16]}.nt"
+
+
+def ensure_docs(case):
+    for op in case["ops"]:
+        if op["k"] == "load" and op["doc"] is not None:
+            path = doc_url(op["doc"])[len("file://"):]
+            if not os.path.exists(path):
+                os.makedirs(LOAD_DIR, exist_ok=True)
+                tmp = f"{path}.{os.getpid()}.tmp"
+                with open(tmp, "w") as f:
+                    f.write(doc_text(op["doc"]))
+                os.replace(tmp, path)
+
+
 # ------------------------------------------------------------------ request text
 
 
@@ -396,6 +431,10 @@ def op_text(op, sp=ABS):
         parts.append(f"WHERE {{ {w} }}")
         return " ".join(parts)
     s = " SILENT" if op.get("silent") else ""
+    if k == "create":
+        return f"CREATE{s} GRAPH {sp.t(op['g'])}"
+    if k == "load":
+        return f"LOAD{s} <{doc_url(op['doc'])}>" + (f" INTO GRAPH {sp.t(op['into'])}" if op["into"] else "")
     if k in ("clear", "drop"):
         return f"{k.upper()}{s} {_gref(op['t'], sp)}"
     return f"{k.upper()}{s} {_gref2(op['src'], sp)} TO {_gref2(op['dst'], sp)}"
@@ -839,6 +878,10 @@ def _needs_dataset(op):
                     or bool(op.get("walg") and "graph" in walg_features(op["walg"])))
     if k in ("clear", "drop"):
         return op["t"] not in ("DEFAULT", "ALL", "NAMED")
+    if k == "create":
+        return True
+    if k == "load":
+        return op["into"] != 0
     return op["src"] != 0 or op["dst"] != 0
 
 
@@ -859,7 +902,18 @@ def spec_op(op, G, eff_union, single_graph, fresh, info=None):
         for s, p, o, g in inss:
             G.setdefault(g, set()).add((s, p, o))
 
-    if k == "insertdata":
+    if k == "create":
+        # rdflib does not implement CREATE (evalCreate raises on every path) and the property does not list it: the
+        # oracle takes every CREATE as a failure and checks what the property does say — the request is aborted there
+        # (or, SILENT, goes on) and nothing is changed by it
+        raise SpecError("CREATE is not implemented")
+    if k == "load":
+        # §3.1.4: the triples of the document are added to the graph; a source that cannot be read is a failure;
+        # blank nodes of a document are its own (fresh per LOAD)
+        if op["doc"] is None:
+            raise SpecError("source cannot be read")
+        apply(set(), spec_instantiate([t + [op["into"]] for t in op["doc"]], {}, 0, fresh))
+    elif k == "insertdata":
         apply(set(), spec_instantiate(op["q"], {}, 0, fresh))
     elif k == "deletedata":
         apply(spec_instantiate(op["q"], {}, 0, fresh), set())
@@ -1099,7 +1153,9 @@ def run_impl(case):
     text = request_text(case)
     old_u, old_l = SPARQL_MOD.SPARQL_DEFAULT_GRAPH_UNION, SPARQL_MOD.SPARQL_LOAD_GRAPHS
     SPARQL_MOD.SPARQL_DEFAULT_GRAPH_UNION = bool(case["union"])
-    SPARQL_MOD.SPARQL_LOAD_GRAPHS = False
+    # LOAD needs the switch on; such requests have no USING (with the switch on an empty USING graph is fetched from its IRI)
+    SPARQL_MOD.SPARQL_LOAD_GRAPHS = any(o["k"] == "load" for o in case["ops"])
+    ensure_docs(case)
     try:
         top, dflt = _build(case)
         runs = case.get("runs", 1)
@@ -1224,6 +1280,13 @@ def run_impl(case):
             else:
                 stats["relative_iri_in_first_op"] = stats.get("relative_iri_in_first_op", 0) + ol.count("@r.")
     for o in case["ops"]:
+        if o["k"] == "load":
+            key_ = "load_unreadable" if o["doc"] is None else "load_into_graph" if o["into"] else "load_default"
+            stats[key_] = stats.get(key_, 0) + 1
+            if o["doc"] and any(kind(x) == "t" for t in o["doc"] for x in t):
+                stats["load_doc_with_bnodes"] = stats.get("load_doc_with_bnodes", 0) + 1
+        if o["k"] in ("create", "load") and o.get("silent"):
+            stats[o["k"] + "_silent"] = stats.get(o["k"] + "_silent", 0) + 1
         stats["op_" + o["k"]] = stats.get("op_" + o["k"], 0) + 1
         if o.get("eb"):
             stats["empty_graph_block"] = stats.get("empty_graph_block", 0) + 1
@@ -1316,6 +1379,12 @@ def op_line(op, sp=ABS):
             *_wmode_tokens(op.get("wmode"), sp),
             *([1, f[0], 0 if f[1] == "=" else 1, sp.m(f[2])] if f else [0])] if x != "")
     s = 1 if op.get("silent") else 0
+    if k == "create":
+        return f"create {s} {sp.m(op['g'])}"
+    if k == "load":
+        doc = op["doc"]
+        return " ".join(["load", str(s), "0" if doc is None else "1", sp.m(op["into"]), str(len(doc or []))]
+                        + [sp.m(x) for t in (doc or []) for x in t])
     if k in ("clear", "drop"):
         t = op["t"]
         return f"{k} {s} {t if isinstance(t, str) else 'GRAPH ' + sp.m(t)}"
@@ -1507,7 +1576,27 @@ def _gen_case(rng, tier, i):
             return {"q": _group(q)}
         return {"q": q, "split": rng.random() < 0.3}
 
+    def gen_create_load():
+        sl = rng.random() < 0.4
+        if rng.random() < 0.35:
+            return {"k": "create", "silent": sl, "g": rng.choice(GNAMES if single else anyg)}
+        doc = None
+        if rng.random() < 0.75:
+            doc = []
+            for _ in range(rng.randint(1, 3)):
+                t = triple()
+                if rng.random() < 0.3:
+                    t[rng.choice([0, 2])] = rng.choice([50, 51])
+                if t not in doc:
+                    doc.append(t)
+        into = 0
+        if rng.random() < (0.1 if single else 0.45):
+            into = rng.choice(GNAMES if single else anyg)
+        return {"k": "load", "silent": sl, "doc": doc, "into": into}
+
     def gen_op():
+        if rng.random() < 0.07:
+            return gen_create_load()
         r = rng.random()
         gs = [0] if single else [0, 0] + anyg
         if single and rng.random() < 0.08:        # a plain Graph asked about a named graph: must fail (or SILENT)
@@ -1721,6 +1810,10 @@ def _gen_case(rng, tier, i):
                 "filter": flt, "split": split, "wmode": wmode}
 
     ops = [gen_op() for _ in range(rng.choice([1, 1, 1, 2, 2, 3, 4]))]
+    if any(o["k"] == "load" for o in ops):
+        for o in ops:                             # SPARQL_LOAD_GRAPHS will be on: no USING (it would fetch empty graphs)
+            if o["k"] == "modify":
+                o["using"], o["named"] = [], []
     for op in ops:                                # now and then an EMPTY `GRAPH g { }` block closes the quad data / templates
         if not single and op["k"] in ("insertdata", "deletedata", "modify") and rng.random() < 0.1:
             op["eb"] = [rng.choice(anyg + ([44] if op["k"] == "modify" else []))]
@@ -1807,6 +1900,9 @@ def _shrink(case):
     if case.get("reg"):
         yield {**case, "reg": []}
     for i, op in enumerate(ops):
+        if op["k"] == "load" and op["doc"] and len(op["doc"]) > 1:
+            for j in range(len(op["doc"])):
+                yield {**case, "ops": ops[:i] + [{**op, "doc": op["doc"][:j] + op["doc"][j + 1:]}] + ops[i + 1:]}
         for f in ("q", "del", "ins", "where"):
             lst = op.get(f)
             if lst and (len(lst) > 1 or f == "where"):
